@@ -288,7 +288,7 @@ def run(ctx):
     out = core.Outcome()
     items = [("cat", c) for c in CATALOGUE]
     base = ctx.seed * 1000003 + 101
-    items += [("rand", base + i) for i in range(ctx.n(1500, 30000))]
+    items += [("rand", base + i) for i in range(ctx.n(6000, 40000))]
     results = core.pmap(run_case, items, chunksize=8)
     accepted = rejected = pairs = comp_panics = 0
     kinds = set()
